@@ -21,6 +21,8 @@ func checkC10(p *Prog, r *Result, tier string) {
 	r.Rule("C10.R7", "a delete drops the pending entry (CALL.del(pending) on every successful delete under caching; shared with C01.R2)", 1)
 	r.Rule("C10.R8", "the 'flusher started' flag belongs to one settings object: the async settings are handled by pointer, no function copies a whole settings value (which would duplicate the private flag, so that the starter believes a flusher is running for settings that have none) unless it resets the flag of the copy", 0)
 	checkAsyncCopies(p, r, "C10.R8")
+	r.Rule("C10.R9", "a schema owns its settings object: on Create and on load, every pointer stored into the AsyncWrites field of a schema was allocated by the package during that call (a private copy, or the decoder's) or is nil; the caller's pointer, which one Schema value used for several collections shares between them, is never kept (the 'flusher started' flag lives in that object: with a shared one only the first collection gets a flusher)", 2)
+	checkSettingsOwned(p, c0(p), r, "C10.R9")
 	r.NotDecided = []string{"that the threshold/timeout comparison fires in time (wall clock)", "that the flusher is not starved"}
 	c := computeClosures(p)
 
@@ -754,4 +756,37 @@ func checkAsyncCopies(p *Prog, r *Result, rule string) {
 	if n == 0 {
 		r.Report(rule, "-", "no settings value is copied", Discharged, "", "", nil, true)
 	}
+}
+
+func c0(p *Prog) *Closures { return computeClosures(p) }
+
+// checkSettingsOwned: provenance of what is stored into Schema.AsyncWrites on the paths of Create and of the loader.
+func checkSettingsOwned(p *Prog, c *Closures, r *Result, rule string) {
+	a := p.A
+	var roots []*ssa.Function
+	for _, n := range []string{"DB.Create", "DB.Schema"} {
+		if f := p.FuncByName(n); f != nil {
+			roots = append(roots, f)
+		}
+	}
+	if len(roots) == 0 {
+		r.Report(rule, "-", "entries", Undecided, "Create / Schema entries not found", "", nil, false)
+		return
+	}
+	exploreAll(p, c, jobsFor(roots, []Valuation{{FileExists: triYes}, {FileExists: triNo}}), effs(EOkSchema), r, func(j exploreJob) Listener {
+		return &effListener{p: p, r: r, root: j.root, val: j.val, onEvent: func(l *effListener, x *Explorer, st *State, ev *Event) {
+			if ev.Kind != EvAccess || !ev.Write || ev.Struct != a.Schema || ev.Field != a.SchAsync {
+				return
+			}
+			if _, ok := ev.Instr.(*ssa.Store); !ok {
+				return
+			}
+			fn := FuncName(st.top().fn)
+			if ev.VNil == triYes || ev.VTags&(TFresh|TDecoded) != 0 {
+				l.ok(rule, fn, "settings pointer stored in a schema is the package's own", l.p.Pos(ev.Instr.Pos()))
+			} else {
+				l.bad(rule, fn, "settings pointer stored in a schema is the package's own", "a schema keeps a settings pointer that was not allocated by the package in this call: when the caller uses one Schema value for several collections they share the object holding the 'flusher started' flag, and only the first collection gets a flusher (the pending writes of the others wait for Close)", l.p.Pos(ev.Instr.Pos()), x, st, ev.Instr)
+			}
+		}}
+	}, nil)
 }
